@@ -241,7 +241,13 @@ def trigH : Handler := fun args => do
   let prog ← parseProg b
   .ok (strBytes (Verif.Model.JsHoist.knownTrigger prog))
 
+/-- `model.c01d.facts` → the side conditions read from the source (`Gen/JsHoistFacts.lean`) as `0`/`1` characters:
+    mergeChecksOwnFunction, isShadowedKnowsWhile, catchKeepsAssignedByVar -/
+def factsH : Handler := fun _ =>
+  .ok (boolBytes Verif.Gen.JsHoistFacts.mergeChecksOwnFunction ++ boolBytes Verif.Gen.JsHoistFacts.isShadowedKnowsWhile
+    ++ boolBytes Verif.Gen.JsHoistFacts.catchKeepsAssignedByVar)
+
 def handlers : List (String × Handler) :=
-  [("model.c01d.min", minH), ("spec.c01d.run", runH), ("trig.c01d.known", trigH)]
+  [("model.c01d.min", minH), ("spec.c01d.run", runH), ("trig.c01d.known", trigH), ("model.c01d.facts", factsH)]
 
 end Verif.Driver.C01D
